@@ -22,7 +22,8 @@ RULE = ("stratified product of binning methods (linear, comoving, logspace, cust
         "(rmin >= rmax in some scale, non-increasing / single edges, unknown method / unit / cosmology, no limits): "
         "number of bins, strict monotonicity, edges[0]==zmin and edges[-1]==zmax BITWISE, linear edges vs exact "
         "linspace (2 ulp), comoving / logspace interior edges vs an independent astropy evaluation (1e-9), angles vs "
-        "r/D(z) (4 ulp), modify(**delta) == create(**merged) with bitwise identical edges, original untouched, equality "
+        "r/D(z) (4 ulp), modify(**delta) == create(**merged) with bitwise identical edges (deltas incl. explicit None = "
+        "back to the default), original untouched, equality "
         "of equal parameters. non-trivial: >= 2 bins; distinct by parameter tuple")
 
 METHODS = ["linear", "comoving", "logspace"]
@@ -172,7 +173,7 @@ def run(prop, tier, seed, replay):
         edges_before = edges.copy()
         for _ in range(2):
             d = {}
-            kind = rng.choice(["scales", "closed", "zlim", "bins", "method", "edges", "cosmology", "multi", "custom_method"])
+            kind = rng.choice(["scales", "closed", "zlim", "bins", "method", "edges", "cosmology", "multi", "custom_method", "reset"])
             if kind == "scales":
                 d["rmin"] = 0.25 if not isinstance(p["rmin"], list) else [0.25, 0.5]
                 if isinstance(p["rmin"], list):
@@ -189,6 +190,9 @@ def run(prop, tier, seed, replay):
                 d["edges"] = [0.1, 0.25, 0.75, 1.5]
             elif kind == "cosmology":
                 d["cosmology"] = rng.choice(COSMOS)
+            elif kind == "reset":       # an explicit None is a value (back to the default), not "leave unchanged"
+                for k in rng.sample(["cosmology", "rweight", "resolution"], rng.choice([1, 2])):
+                    d[k] = None
             elif kind == "multi":
                 d.update(zmin=0.2, zmax=1.7, num_bins=4, method=rng.choice(METHODS), closed="left", unit=rng.choice(UNITS),
                          cosmology=rng.choice(COSMOS))
